@@ -734,6 +734,55 @@ func (a *idxAnalyzer) summariseUnit(id types.Object, sig *types.Signature, ft *a
 			}
 		}
 	}
+	// res >= param for integer parameters the function never assigns (forward-only scanners)
+	assigned := map[string]bool{}
+	ast.Inspect(body, func(n ast.Node) bool {
+		switch x := n.(type) {
+		case *ast.AssignStmt:
+			for _, l := range x.Lhs {
+				if id, ok := l.(*ast.Ident); ok {
+					assigned[id.Name] = true
+				}
+			}
+		case *ast.IncDecStmt:
+			if id, ok := x.X.(*ast.Ident); ok {
+				assigned[id.Name] = true
+			}
+		case *ast.UnaryExpr:
+			if x.Op == token.AND {
+				if id, ok := x.X.(*ast.Ident); ok {
+					assigned[id.Name] = true
+				}
+			}
+		}
+		return true
+	})
+	for ri := 0; ri < sig.Results().Len(); ri++ {
+		if !isIntType(sig.Results().At(ri).Type()) {
+			continue
+		}
+		for pj, p := range ps {
+			if p == nil || !isIntType(a.info.TypeOf(p)) || assigned[p.Name] {
+				continue
+			}
+			all := len(a.retStates) > 0
+			for _, rc := range a.retStates {
+				if len(rc.rs.Results) != sig.Results().Len() {
+					all = false
+					break
+				}
+				lr, ok1 := a.lin(rc.rs.Results[ri])
+				lp, ok2 := a.lin(p)
+				if !ok1 || !ok2 || !a.proveLE(rc.z, linSub(lp, lr), 0) {
+					all = false
+					break
+				}
+			}
+			if all {
+				facts = append(facts, retFact{res: ri, param: pj, geParam: true, whenOK: -1})
+			}
+		}
+	}
 	if len(facts) > 0 {
 		a.retLE[id] = facts
 	} else {
